@@ -365,9 +365,11 @@ func ruleChunkWritesEveryPath(r *Report, rule string) {
 			continue
 		}
 		for _, w := range callSites(fn, "(*bufio.Writer).Write", "io.CopyN") {
-			reach, path := Search{Fn: fn, From: sws[0].call, Target: isInstr(test), Avoid: isInstr(w)}.Run()
+			// ... to the limit test, or round the loop to the next record's size word
+			next := sws[0].call
+			reach, path := Search{Fn: fn, From: sws[0].call, Target: func(in ssa.Instruction) bool { return in == test || in == ssa.Instruction(next) }, Avoid: isInstr(w)}.Run()
 			if reach {
-				r.BadPath(rule, shortFunc(fn)+"/every-counted-byte-written", w.Pos(), "this write is skipped on some path although the running size (and every later record's offset) counts its bytes: the chunk files are no longer byte-identical to the old file, so remapped offsets point at the wrong bytes", path)
+				r.BadPath(rule, shortFunc(fn)+"/every-counted-byte-written", w.Pos(), "this write is skipped on some path (to the limit test or on to the next record) although every later record's offset counts its bytes: the chunk files are no longer byte-identical to the old file (e.g. deleted records dropped instead of copied as dead space), so remapped offsets point at the wrong bytes", path)
 			} else {
 				r.Ok(rule, shortFunc(fn)+"/every-counted-byte-written", w.Pos(), "written on every path through the iteration")
 			}
